@@ -15,7 +15,8 @@ pub const RULE: &str = "cases = (literal constant) for the fixed grid of literal
 2^(64k)-1, 2^(64k), 2^(64k)+1, 2^(64N)-1, single-limb, top-limb-only, uniform below and above p; radices decimal/0x/0X/0o/0O/0b/0B; optional minus sign; \
 leading zeros; N = 1..13 with and without spare bit), each compared with the Python-computed value, an independent num-bigint parse of the text and the \
 run-time constructors; plus (field configuration, derive-macro product) obligations; non-trivial = every case except the literal value 0 without sign; \
-distinct = digest of (constant id) or (configuration, obligation); the grid is enumerated completely";
+distinct = digest of (constant id) or (configuration, obligation); the grid is enumerated completely; decimal/hex literals and small octal/binary literals are `const` items, every octal/binary literal is also \
+expanded in a run-time context so that a mis-read radix surfaces as a value mismatch or a caught panic instead of a build failure";
 
 pub const L_PY: &str = "literal: constant equals the Python-computed value";
 pub const L_PARSE: &str = "literal: constant equals the independent parse of the literal text";
@@ -125,6 +126,8 @@ const LIT_CLASSES: &[&str] = &[
     "literal: value >= p",
     "literal: value >= 2^60 (more than 15 hex digits)",
     "literal: value fills all N limbs",
+    "literal: const item evaluated at compile time",
+    "literal: macro expanded in a run-time context (octal / binary)",
 ];
 
 fn check_field_literals(rep: &mut Report, mi: usize, ops: &PrimeC) {
@@ -146,14 +149,27 @@ fn check_field_literals(rep: &mut Report, mi: usize, ops: &PrimeC) {
         classes_of(rep, l);
         let form = form_of(l);
         let sig = |what: &str| format!("literal/{kind}/{form}/{what}");
-        let detail = |extra: Value| json!({"const": format!("C{}", l.id), "modulus": info.name, "p": info.p, "N": n, "literal": l.text, "raw limbs": hex_limbs(l.limbs), "info": extra});
+        // group R literals are expanded in a run-time context: a panic of the conversion is an observation
+        let limbs_owned: Vec<u64> = match l.eval {
+            None => l.limbs.to_vec(),
+            Some(f) => {
+                rep.class("literal: macro expanded in a run-time context (octal / binary)");
+                match rep.total(&format!("literal/{kind}/{form}"), || json!({"id": l.id, "modulus": info.name, "N": n, "literal": l.text, "expected": l.expect}), f) {
+                    Some(v) => v,
+                    None => continue,
+                }
+            },
+        };
+        rep.class_if(l.eval.is_none(), "literal: const item evaluated at compile time");
+        let limbs: &[u64] = &limbs_owned;
+        let detail = |extra: Value| json!({"const": format!("C{}", l.id), "modulus": info.name, "p": info.p, "N": n, "literal": l.text, "raw limbs": hex_limbs(limbs), "info": extra});
         // decode the constant oracle-side
-        let canonical = l.limbs.len() == n && from_limbs(l.limbs) < p;
+        let canonical = limbs.len() == n && from_limbs(limbs) < p;
         rep.class(L_CANON);
         if !canonical {
             rep.violation(sig("non-canonical"), detail(json!({})));
         }
-        let got = mont_decode(l.limbs, &p);
+        let got = mont_decode(limbs, &p);
         // (a) Python
         let py: UInt = l.expect.parse().unwrap();
         rep.class(L_PY);
@@ -174,16 +190,16 @@ fn check_field_literals(rep: &mut Report, mi: usize, ops: &PrimeC) {
         rep.class(L_RUNTIME);
         let dec = int.to_string();
         let a = (ops.from_str)(&dec);
-        if a.as_deref() != Some(l.limbs) {
+        if a.as_deref() != Some(limbs) {
             rep.violation(sig("differs-from-from_str"), detail(json!({"from_str": a.as_ref().map(|x| hex_limbs(x)), "decimal": dec})));
         }
         let b = (ops.from_bigint)(&to_limbs(&want, n));
-        if b.as_deref() != Some(l.limbs) {
+        if b.as_deref() != Some(limbs) {
             rep.violation(sig("differs-from-from_bigint"), detail(json!({"from_bigint": b.as_ref().map(|x| hex_limbs(x))})));
         }
         let c = (ops.from_biguint)(int.magnitude());
         let c = if int.is_negative() { (ops.neg)(&c) } else { c };
-        if c != l.limbs {
+        if c != limbs {
             rep.violation(sig("differs-from-From<BigUint>"), detail(json!({"From<BigUint> (negated for negative literals)": hex_limbs(&c)})));
         }
         rep.sample(&format!("{kind}/{}", l.class), || json!({"const": format!("C{}", l.id), "modulus": info.name, "literal": l.text, "value": got.to_string()}));
@@ -196,11 +212,23 @@ fn check_bigint_literals(rep: &mut Report, n: usize) {
         rep.eval(digest(&("lit", l.id)), l.expect != "0" || l.text.starts_with('-'));
         rep.op("BigInt");
         classes_of(rep, l);
-        let detail = |extra: Value| json!({"const": format!("C{}", l.id), "N": n, "literal": l.text, "limbs": hex_limbs(l.limbs), "info": extra});
-        let got = from_limbs(l.limbs);
+        let limbs_owned: Vec<u64> = match l.eval {
+            None => l.limbs.to_vec(),
+            Some(f) => {
+                rep.class("literal: macro expanded in a run-time context (octal / binary)");
+                match rep.total(&format!("literal/BigInt/{}", form_of(l)), || json!({"id": l.id, "N": n, "literal": l.text, "expected": l.expect}), f) {
+                    Some(v) => v,
+                    None => continue,
+                }
+            },
+        };
+        rep.class_if(l.eval.is_none(), "literal: const item evaluated at compile time");
+        let limbs: &[u64] = &limbs_owned;
+        let detail = |extra: Value| json!({"const": format!("C{}", l.id), "N": n, "literal": l.text, "limbs": hex_limbs(limbs), "info": extra});
+        let got = from_limbs(limbs);
         let py: UInt = l.expect.parse().unwrap();
         rep.class(L_PY);
-        if l.limbs.len() != n || got != py {
+        if limbs.len() != n || got != py {
             rep.violation(format!("literal/BigInt/{}/value-vs-python", form_of(l)), detail(json!({"expected": l.expect, "got": got.to_string()})));
         }
         let int = parse_literal(l.text).expect("literal syntax");
